@@ -96,6 +96,8 @@ func runCase(c caseLine) (obs string) {
 		return execFw(toks)
 	case "pl":
 		return execPl(toks)
+	case "ls":
+		return execLs(toks)
 	}
 	return "bad-case"
 }
@@ -129,7 +131,7 @@ func readCorpus(path string) []caseLine {
 }
 
 func main() {
-	mode := flag.String("mode", "dec", "dec | rt | st | fw | pl")
+	mode := flag.String("mode", "dec", "dec | rt | st | fw | pl | ls")
 	tier := flag.String("tier", "quick", "quick | thorough")
 	seed := flag.Uint64("seed", 1, "seed")
 	stats := flag.String("stats", "", "stats file")
@@ -160,11 +162,13 @@ func main() {
 			cases = append(cases, genFw(r, thorough)...)
 		case "pl":
 			cases = append(cases, genPl(r, thorough)...)
+		case "ls":
+			cases = append(cases, genLs(r, thorough)...)
 		}
 	}
 	// dec/rt measure allocation with process-wide counters: they run on one goroutine.
 	par := 1
-	if *mode == "st" || *mode == "fw" || *mode == "pl" {
+	if *mode == "st" || *mode == "fw" || *mode == "pl" || *mode == "ls" {
 		par = *workers
 	}
 	obs := make([]string, len(cases))
